@@ -796,3 +796,20 @@ Proof.
   intros id. destruct id as [|p|p]; try reflexivity;
   do 7 (try (destruct p as [p|p|]; try reflexivity)).
 Qed.
+
+(* ------------------------------------------------------------------ *)
+(* user error types (Sub.prototype = new Error()): the text is that of the thrown object *)
+Lemma builtin_error_tostring_spec : forall n m, builtin_error_tostring n m = error_tostring n m.
+Proof.
+  intros n m. unfold builtin_error_tostring, error_tostring, err_name_units.
+  destruct n as [[|a n]|]; destruct m as [[|b m]|]; reflexivity.
+Qed.
+
+Theorem uncaught_text_derived : forall pn pm cn cm,
+  uncaught_text (ThDerived pn pm cn cm) = spec_text (ThDerived pn pm cn cm).
+Proof. intros. apply builtin_error_tostring_spec. Qed.
+
+(* reporting through the error found on the prototype chain would be a different text *)
+Theorem prototype_payload_refuted : exists pn pm cn cm,
+  format pn pm <> spec_text (ThDerived pn pm cn cm).
+Proof. exists [69], [], (Some [86]), (Some [109]). vm_compute. discriminate. Qed.
